@@ -12,7 +12,11 @@ func c19Doc(i int, symbolic bool) any {
 	if symbolic {
 		c = ndScalarNN()
 	}
-	switch ndChoice(11) {
+	switch ndChoice(13) {
+	case 12: // two entries of one map evaluate to the same key (interpolated key vs literal)
+		return map[string]any{"name": "web", `$"{name}"`: "generated", "web": c, "z": 1}
+	case 11: // the same through a repeated map entry with an interpolated key
+		return map[string]any{"m": map[string]any{`$"srv{$repeat}"`: map[string]any{"$repeat": 2, "port": 80}, "srv1": map[string]any{"port": c}}}
 	case 10: // a document whose top level is a list, with a cross-document $merge next to other keys
 		return []any{map[string]any{"name": "web", "c": c, "$merge": map[string]any{"$match": map[string]any{"id": 2}, "$path": "base"}}, "plain"}
 	case 9: // a $merge map with sibling keys inside a list-valued key
@@ -99,7 +103,12 @@ func HarnessC19_history() {
 		switch ndChoice(3) {
 		case 0: // output: must equal the previous output if nothing was merged in between
 			before := c19Docs(p)
+			// successive outputs run under different iteration policies of
+			// the evaluator's map ranges (insertion order, reversed, rotated):
+			// "the same bytes each time" whatever order Go picks
+			vOrderGlobal(outputs % 4)
 			cur := c19Out(p)
+			vOrderGlobal(0)
 			after := c19Docs(p)
 			vAssert("C19.docs.unchanged", vEq(before, after))
 			if havePrev {
@@ -132,7 +141,10 @@ func HarnessC19_history() {
 	}
 	// in the end the parser that produced output agrees with the twin
 	vAssert("C19.final.documents", vEq(c19Docs(p), c19Docs(twin)))
-	a, b := c19Out(p), c19Out(twin)
+	a := c19Out(p)
+	vOrderGlobal(1)
+	b := c19Out(twin)
+	vOrderGlobal(0)
 	vAssert("C19.final.status", a.err == b.err)
 	if !a.err {
 		vAssert("C19.final.outputs", vEq(a.outs, b.outs))
